@@ -87,6 +87,8 @@ CHECKS["C01"] = dict(
         R("h_loop", "bound=2 seeds=%s nfd=3 ntm=3 ntk=2 nev=2 nraw=1 nsig=1 ops=%s rules=stale-callback,cookie,oneshot-registered,%s" % (ALL_SEEDS_C01, UNREG_OPS, ABN)),
         # any API action from any callback, 1 deviation
         R("h_loop", "bound=1 seeds=%s,1,5,13,14,15,16,19,20 nfd=3 ntm=3 ntk=2 nev=2 nraw=1 nsig=1 nwk=1 rules=stale-callback,cookie,oneshot-registered,%s" % (ALL_SEEDS_C01, ABN)),
+        # all handlers cleared, then unregistered (+freed) before the next poll: nothing may be left queued for the poll method
+        R("h_loop", "bound=2 seeds=1,2,22 nfd=2 ntm=0 ntk=0 nev=0 ops=leave,fdseth,fdunreg rules=stale-callback,cookie,oneshot-registered,%s" % ABN),
         R("h_inotify", "bound=1 workers=40"),
         # cross-thread posts: the owner's event handlers unregister+free other events and the owner's descriptor
         R("h_event_mt", "bound=2 transports=0-3 p1=0,3,4 p2=0,3 hacts=1", sched=True),
@@ -117,6 +119,10 @@ CHECKS["C02"] = dict(
         R("h_loop", "bound=2 seeds=%s nfd=3 ntm=0 ntk=1 nev=0 ops=%s rules=fd-sleep,fd-starved,fd-skipped,%s" % (FD_SEEDS, FD_OPS, ABN)),
         # caller memory with other byte patterns; a struct whose registration failed is initialised again and re-used
         R("h_loop", "bound=2 poisons=1 seeds=0,1,19 nfd=2 ntm=0 ntk=0 nev=0 ops=leave,fdreg,fdtrybad,fdunreg,feed rules=fd-sleep,fd-starved,fd-skipped,%s" % ABN),
+        # a struct initialised once is registered, unregistered and registered again without a second IV_FD_INIT
+        R("h_loop", "bound=2 fdkeep=1 nofree=1 seeds=1,2,19 nfd=2 ntm=0 ntk=0 nev=0 ops=leave,fdreg,fdunreg,feed rules=fd-sleep,fd-starved,fd-skipped,%s" % ABN),
+        # bare POLLERR (write end of a pipe whose reader went away) with an error-only / input-only handler
+        R("h_loop", "bound=2 seeds=32,33 nfd=2 ntm=0 ntk=0 nev=0 ops=leave,fdunreg,fdseth,pclose,fill,unfill rules=fd-sleep,fd-starved,fd-skipped,%s" % ABN),
     ],
     thorough=[
         # full alphabet at bound 2, then smaller alphabets sized so that bounds 3 and 4 run to completion
@@ -135,6 +141,9 @@ CHECKS["C02"] = dict(
 CHECKS["C03"] = dict(
     quick=[
         R("h_loop", "bound=2 seeds=%s nfd=3 ntm=0 ntk=1 nev=0 ops=%s abn_ignore=1 nofree=1 rules=fd-spurious,fd-wrong-handler,fd-twice,fd-cleared-handler,stale-callback,cookie" % (FD_SEEDS, FD_OPS)),
+        # a cross-thread event handler recycles the owner's descriptor object (same struct, fresh idle descriptor) while the
+        # old descriptor's readiness may sit in the same poll batch
+        R("h_event_mt", "bound=2 transports=0-3 p1=3,4 p2=0,3 hacts=1 abn_ignore=1", sched=True),
     ],
     thorough=[
         R("h_loop", "bound=2 seeds=%s nfd=3 ntm=0 ntk=1 nev=0 ops=%s abn_ignore=1 nofree=1 rules=fd-spurious,fd-wrong-handler,fd-twice,fd-cleared-handler,stale-callback,cookie" % (FD_SEEDS, FD_OPS)),
@@ -157,6 +166,10 @@ CHECKS["C04"] = dict(
         # interrupted waits (immediately / after half of the sleep) must not make the loop oversleep
         R("h_loop", "bound=2 seeds=7,13,8 nfd=1 ntm=3 ntk=0 nev=0 eintr_wait=1 ops=leave,tmreg,tmunreg rules=timer-early,timer-twice,oversleep,%s" % ABN),
         R("h_loop", "bound=2 seeds=25 nfd=0 ntm=7 ntk=0 nev=0 horizon=12 ops=leave,tmunreg,tmreg rules=timer-early,timer-twice,oversleep,stale-callback,oneshot-registered,%s" % ABN),
+        # the kernel-timer optimisation without a timerfd (timerfd_create -> ENOSYS when it first engages)
+        R("h_loop", "bound=1 seeds=16,17,30 nfd=1 ntm=3 ntk=1 nev=0 horizon=14 absent=2 ops=leave,tmreg,tmunreg,feed rules=timer-early,timer-twice,oversleep,stale-callback,oneshot-registered,%s" % ABN),
+        # the optimisation engaged, disarmed by a task burst (zero-timeout polls), and needed again for the same deadline
+        R("h_loop", "bound=1 seeds=36,16,18 nfd=1 ntm=1 ntk=1 nev=0 horizon=20 ops=leave,tkreg,tkunreg,feed rules=timer-early,timer-twice,oversleep,%s" % ABN),
     ],
     thorough=[
         R("h_loop", "bound=2 seeds=%s nfd=1 ntm=3 ntk=1 nev=0 horizon=14 ops=%s rules=timer-early,timer-twice,oversleep,stale-callback,oneshot-registered,%s" % (TM_SEEDS, TM_OPS, ABN)),
@@ -181,6 +194,9 @@ CHECKS["C06"] = dict(
         R("h_loop", "bound=3 tkkeep=1 seeds=9,6,10 nfd=1 ntm=0 ntk=3 nev=0 ops=leave,tkreg,tkunreg,feed rules=sleep-with-task,task-same-round,oneshot-registered,stale-callback,fd-starved,%s" % ABN),
         # wall-clock time passes (1 ms per loop iteration) while task chains keep the loop from sleeping: timers and descriptors must still be served
         R("h_loop", "bound=2 drift_ns=1000000 autotask=30 seeds=27,6,9 nfd=1 ntm=1 ntk=2 nev=0 horizon=40 ops=leave,tkreg,fdreg,feed,tmreg rules=timer-starved,fd-starved,task-same-round,%s" % ABN),
+        # a task burst in the middle of a long run of descriptor wake-ups with one pending timer (kernel-timer optimisation engaged,
+        # dropped for the zero-timeout polls, engaged again): the timer must still be served
+        R("h_loop", "bound=1 seeds=36,16,18 nfd=1 ntm=1 ntk=1 nev=0 horizon=20 ops=leave,tkreg,tkunreg,feed rules=oversleep,timer-starved,sleep-with-task,task-same-round,%s" % ABN),
     ],
     thorough=[
         R("h_loop", "bound=3 seeds=9,6,10,0,1,21 nfd=1 ntm=1 ntk=3 nev=1 nwk=1 ops=%s rules=sleep-with-task,task-same-round,oneshot-registered,stale-callback,fd-starved,work-,%s" % (TK_OPS, ABN)),
@@ -202,6 +218,8 @@ CHECKS["C07"] = dict(
         R("h_loop", "bound=2 seeds=0,1,6,10,11,12,20,21,23 nfd=2 ntm=1 ntk=1 nev=2 nraw=1 nsig=1 nwk=1 emfile=1 rules=%s" % C07_RULES),
         R("h_loop", "bound=2 seeds=16,17,18 nfd=1 ntm=3 ntk=1 nev=0 horizon=14 ops=leave,tmreg,tmunreg,tkreg,feed rules=%s" % C07_RULES),
         R("h_loop", "bound=2 seeds=25 nfd=0 ntm=7 ntk=0 nev=0 horizon=12 ops=leave,tmunreg,tmreg rules=%s" % C07_RULES),
+        # interrupted waits with timers pending
+        R("h_loop", "bound=2 seeds=7,13,8 nfd=1 ntm=3 ntk=0 nev=0 eintr_wait=1 ops=leave,tmreg,tmunreg rules=%s" % C07_RULES),
     ],
     thorough=[
         R("h_loop", "bound=2 seeds=0,1,6,10,11,12,20,21,23 nfd=2 ntm=1 ntk=1 nev=2 nraw=1 nsig=1 nwk=1 emfile=1 rules=%s" % C07_RULES),
@@ -272,7 +290,9 @@ MT_ASSUME = [
 CHECKS["C08"] = dict(
     quick=[R("h_event_mt", "bound=2 transports=0-3 hacts=1 p1=0,1,3,4,5 p2=0,1,3", sched=True),
            # owner-side posts, iv_quit from a handler, iv_main entered again
-           R("h_loop", "bound=2 seeds=31,10,20 nfd=1 ntm=0 ntk=1 nev=2 ops=leave,evpost,evreg,evunreg,quit,tkreg rules=event-,main-,stale-callback,%s" % ABN)],
+           R("h_loop", "bound=2 seeds=31,10,20 nfd=1 ntm=0 ntk=1 nev=2 ops=leave,evpost,evreg,evunreg,quit,tkreg rules=event-,main-,stale-callback,%s" % ABN),
+           # owner-side post chains while the loop relies on an armed kernel timer for a far deadline
+           R("h_loop", "bound=2 seeds=37 nfd=1 ntm=1 ntk=1 nev=2 horizon=14 ops=leave,evpost rules=event-,main-,oversleep,stale-callback,%s" % ABN)],
     thorough=[R("h_event_mt", "bound=2 transports=0-4 hacts=2", sched=True, share=0.3),
               R("h_event_mt", "bound=3 transports=0-3 p1=0,1,3,4 p2=0,1,3 hacts=1", sched=True, share=0.6),
               R("h_event_mt", "bound=4 transports=0,2 p1=0,3 p2=0,1 hacts=0", sched=True, share=0.5),
@@ -320,7 +340,9 @@ CHECKS["C14"] = dict(
 )
 
 CHECKS["C09"] = dict(
-    quick=[R("h_raw", "bound=3", sched=True), R("h_loops_mt", "bound=2 cycles=2", sched=True)],
+    quick=[R("h_raw", "bound=3", sched=True), R("h_loops_mt", "bound=2 cycles=2", sched=True),
+           # raw objects next to other ready descriptors in one poll batch, iv_quit from a handler and re-entry of iv_main
+           R("h_loop", "bound=2 reenter=1 seeds=34,12,35 nfd=2 ntm=0 ntk=0 nev=0 nraw=2 nsig=1 ops=leave,quit,rawpost,rawunreg,fdunreg rules=raw-,main-,stale-callback,%s" % ABN)],
     thorough=[R("h_raw", "bound=9 oposts=2", sched=True, share=0.6), R("h_loops_mt", "bound=4 cycles=3", sched=True)],
     rule="3 backings (eventfd2 / old eventfd / pipe shrunk to 4096 B) x 4 poll methods x 10 poster programs (1 post, 2 posts, burst of 5000 "
          "in one step, post from a signal handler running in the owner thread, post from a forked child, and pairs of these) x owner posting "
@@ -341,7 +363,9 @@ CHECKS["C12"] = dict(
     quick=[R("h_work", "bound=1", sched=True),
            R("h_work", "bound=2 methods=0 maxthreads=2 progs=1,4,5,7,8 puts=0,3", sched=True),
            # NULL pool: work and completion run once, in the submitting thread, from a task
-           R("h_loop", "bound=3 seeds=21,0,1 nfd=1 ntm=1 ntk=1 nev=0 nwk=2 ops=leave,wksubmit,tkreg,quit rules=work-,main-,%s" % ABN)],
+           R("h_loop", "bound=3 seeds=21,0,1 nfd=1 ntm=1 ntk=1 nev=0 nwk=2 ops=leave,wksubmit,tkreg,quit rules=work-,main-,%s" % ABN),
+           # pthread_create fails once at any point
+           R("h_work", "bound=1 create_faults=1 methods=0 maxthreads=1,2", sched=True)],
     thorough=[R("h_work", "bound=2", sched=True),
               R("h_work", "bound=3 methods=0 maxthreads=2 progs=1,5,7 puts=0", sched=True)],
     rule=WORK_RULE,
@@ -393,7 +417,9 @@ WAIT_ASSUME = MT_ASSUME + ["fork/wait4/kill of the library are served from a sim
                            "ECHILD when no child is left); the child side of register_spawn is not executed here (C19 does that)",
                            "SIGCHLD is raised by the receiving thread on itself; the receiving thread is a program choice"]
 CHECKS["C11"] = dict(
-    quick=[R("h_wait", "bound=1 steps=6", sched=True), R("h_wait", "bound=2 steps=1", sched=True)],
+    quick=[R("h_wait", "bound=1 steps=6", sched=True), R("h_wait", "bound=2 steps=1", sched=True),
+           # two interests in one loop: a handler unregisters the other interest while its own further statuses are queued
+           R("h_wait", "bound=2 steps=2 pops=5", sched=True)],
     thorough=[R("h_wait", "bound=2 steps=6", sched=True, share=0.7),
               R("h_wait", "bound=3 steps=2 pops=1,2,6", sched=True, share=0.7),
               R("h_wait", "bound=2 steps=3 method=2", sched=True)],
@@ -444,6 +470,8 @@ CHECKS["C15"] = dict(
         R("h_raw", "bound=2 eintr=1 progs=0,2,3", sched=True),
         R("h_pump", "mode=rw bound=3"),
         R("h_pump", "mode=splice bound=1 no_pipe2=1"),
+        # pipe2() goes missing in mid-run, at any of the 18-26 calls made by pumps that need a fresh pipe
+        R("h_pump", "mode=many bound=1 sc_fault=1"),
     ],
     thorough=[
         R("h_loop", "bound=1 exclsets=1 seeds=11,6,12,16 nraw=1 nsig=1 nwk=1"),
